@@ -36,8 +36,10 @@ class Driver:
         if not os.path.exists(path):
             raise InfraError(f"driver executable missing: {path}")
         self.p = subprocess.Popen([path], stdin=subprocess.PIPE, stdout=subprocess.PIPE,
-                                  text=True, bufsize=1)
+                                  stderr=subprocess.DEVNULL, text=True, bufsize=1)
         self.requests = 0
+        import atexit
+        atexit.register(self._kill)       # never leave a driver behind (it would keep a caller's pipe open)
 
     def ask(self, line: str) -> str:
         assert "\n" not in line
@@ -51,6 +53,13 @@ class Driver:
         if out.startswith("bad-request"):
             raise InfraError(f"driver {self.name}: {out} on: {line[:300]}")
         return out
+
+    def _kill(self):
+        try:
+            if self.p.poll() is None:
+                self.p.kill()
+        except Exception:  # noqa: BLE001
+            pass
 
     def close(self):
         try:
